@@ -172,6 +172,29 @@ func Parse(block []rune, pos int) (pt ParsedTokens, syntaxHighlighted string) {
 		}
 
 		switch block[i] {
+		case '`':
+			// backtick quotes aren't tokenised here so what they hide can't be vetted
+			if !pt.Escaped && !pt.QuoteSingle && !pt.QuoteDouble && pt.QuoteBrace == 0 {
+				pt.Unsafe = true
+			}
+			switch {
+			case pt.Escaped:
+				escaped()
+			case readFunc:
+				*pt.pop += string(block[i])
+				syntaxHighlighted += string(block[i])
+			case pt.ExpectFunc:
+				*pt.pop = string(block[i])
+				readFunc = true
+				syntaxHighlighted += string(block[i])
+			case pt.ExpectParam && !pt.QuoteSingle && !pt.QuoteDouble && pt.QuoteBrace == 0:
+				expectParam()
+				fallthrough
+			default:
+				*pt.pop += string(block[i])
+				syntaxHighlighted += string(block[i])
+			}
+
 		case '#':
 			pt.Loc = i
 			switch {
@@ -248,7 +271,8 @@ func Parse(block []rune, pos int) (pt ParsedTokens, syntaxHighlighted string) {
 
 		case '(':
 			pt.Loc = i
-			if !pt.Escaped && !pt.QuoteSingle && !pt.QuoteDouble && pt.QuoteBrace == 0 && (i == 0 || block[i-1] != '%') {
+			if !pt.Escaped && !pt.QuoteSingle && !pt.QuoteDouble && pt.QuoteBrace == 0 &&
+				(i == 0 || block[i-1] != '%' || (i > 1 && block[i-2] == '\\')) {
 				// outside of `%(...)`, parenthesis can hold expressions and
 				// function calls, both of which get executed
 				pt.Unsafe = true
